@@ -51,6 +51,9 @@ func permutations(n int) [][]int {
 func runExCase(c *exCase, st *stats, ci int) {
 	hc := hnCase{Cfg: c.Cfg, Dim: c.Dim, Vecs: c.Vecs}
 	idx := newIndexFor(&hc)
+	if why := configMismatch(idx, &hc); why != "" {
+		st.ImplFailures = append(st.ImplFailures, implFailure{Case: ci, What: why, Key: "config-not-as-requested", Input: c.Cfg})
+	}
 	sp := mkSpace(c.Cfg.Space)
 	for pos, i := range c.Order {
 		idx.Insert(mustUUID(smallId(i)), f32bitsVec(c.Vecs[i]), nil, c.Levels[pos])
